@@ -731,6 +731,12 @@ def values_eq(ctx, a, b):
     """Python `a == b` as bool / z3 Bool (never forks)."""
     if a is b and not isinstance(a, float):
         return True
+    ip = getattr(ctx, 'interp', None)
+    if ip is not None and (isinstance(a, Sym) or isinstance(b, Sym)):
+        for fn in ip.reg.sym_eq:
+            r = fn(ctx, a, b)
+            if r is not NotImplemented:
+                return r
     if isinstance(a, (SInt, SBool)) or isinstance(b, (SInt, SBool)):
         if isinstance(a, (int, SInt, SBool)) and isinstance(b, (int, SInt, SBool)):
             return _simplify(int_term(a) == int_term(b))
